@@ -152,4 +152,25 @@ theorem compare_code_tie (v w : Ver) :
     v.compare w = Gen.sem_Compare comparePre v.major v.minor v.patch v.pre w.major w.minor w.patch w.pre :=
   CodeTies.compare_tie v w
 
+/-- **tie to the source**: `NextMajor/NextMinor/NextPatch` as translated from `sem/version.go` on this run
+(`bits.Add64(x, 1, 0)` is the 65-bit sum split at 2^64, `panic` is `none`) are the model's, for 64-bit components -/
+theorem next_code_tie (v : Ver) :
+    (v.major < two64 → CodeTies.verOpt v.nextMajor = Gen.sem_NextMajor v.major v.minor v.patch v.pre v.build) ∧
+    (v.minor < two64 → CodeTies.verOpt v.nextMinor = Gen.sem_NextMinor v.major v.minor v.patch v.pre v.build) ∧
+    (v.patch < two64 → CodeTies.verOpt v.nextPatch = Gen.sem_NextPatch v.major v.minor v.patch v.pre v.build) :=
+  ⟨CodeTies.nextMajor_tie v, CodeTies.nextMinor_tie v, CodeTies.nextPatch_tie v⟩
+
+/-- **tie to the source**: `Ver.Latest` (through the translated `Compare`), `Ver.IsZero` and `Ver.Core` as translated
+on this run are the model's `latest`, `isZero`, `core` (versions as tuples of their five fields) -/
+theorem latest_code_tie (v w : Ver) :
+    CodeTies.verTuple (v.latest w)
+      = Gen.sem_Latest comparePre v.major v.minor v.patch v.pre v.build w.major w.minor w.patch w.pre w.build ∧
+    v.isZero = Gen.sem_IsZero v.major v.minor v.patch v.pre v.build ∧
+    CodeTies.verTuple v.core = Gen.sem_Core v.major v.minor v.patch v.pre v.build :=
+  ⟨CodeTies.latest_tie v w, CodeTies.isZero_ver_tie v, CodeTies.core_tie v⟩
+
+example : CodeTies.verOpt (⟨18446744073709551615, 0, 0, [], []⟩ : Ver).nextMajor = none := by decide
+example : CodeTies.verOpt (⟨1, 2, 3, [97], [98]⟩ : Ver).nextMinor = some (1, 3, 0, [], []) := by decide
+example : (⟨0, 0, 0, [], [98]⟩ : Ver).isZero = false ∧ Ver.zero.isZero = true := by decide
+
 end U.Props.C14
